@@ -25,13 +25,15 @@ func init() {
 	register(&Property{
 		ID:         "C22",
 		Level:      "other",
-		Technique:  "scanner-to-automaton abstract interpretation + language equivalence; SSA width-provenance dataflow; kind-context table conformance (static)",
-		Explain:    "Decides structural necessary conditions of exact JSON scalar decoding: (1) parseNumberParts, which splits a number into sign/integer/fraction/exponent for exact integer conversion, accepts exactly the RFC 8259 number language (same automaton comparison as the tokenizer's scanner, so both agree on what a number is); (2) no float32 value is produced by parsing at width 64 and narrowing (double rounding), the bitSize is threaded and guarded; (3) in every Kind-dependent branch of the JSON encoder and decoder the bitSize constants, Value constructors/accessors and writer methods match the Kind per the proto3 JSON table (32-bit integers as numbers, 64-bit integers as strings, width 32 for float).",
-		NotCovered: "normalizeToIntString's digit shifting and the range checks inside strconv (value-level arithmetic over runtime lengths); base64 variant acceptance; enum name/number lookup.",
+		Technique:  "scanner-to-automaton abstract interpretation + language equivalence; SSA width-provenance dataflow; kind-context table conformance; linear-form verification of the integer digit shifting; who-may-produce rule for numeric values (static)",
+		Explain:    "Decides structural necessary conditions of exact JSON scalar decoding: (1) parseNumberParts, which splits a number into sign/integer/fraction/exponent for exact integer conversion, accepts exactly the RFC 8259 number language (same automaton comparison as the tokenizer's scanner, so both agree on what a number is); (2) no float32 value is produced by parsing at width 64 and narrowing (double rounding), the bitSize is threaded and guarded; (3) in every Kind-dependent branch of the JSON encoder and decoder the bitSize constants, Value constructors/accessors and writer methods match the Kind per the proto3 JSON table (32-bit integers as numbers, 64-bit integers as strings, width 32 for float); (4) normalizeToIntString's digit shifting, as linear forms over the part lengths: non-integers rejected exactly by F > E (E ≥ 0) or F > 0 / a non-zero cut digit (E < 0), E - F zeros appended, and the digit-count rejection never exceeds the number of significant digits (it must discount the leading zeros of the fraction when the integer part is 0) with a bound ≥ 20; (5) the numeric unmarshal helpers produce values only through json.Token.Int/Uint/Float — a quoted number is re-tokenised by the JSON reader with an EOF check, never handed to strconv, so quoted and bare numbers obey the same grammar.",
+		NotCovered: "the range checks inside strconv; that parseNumberParts stores an empty integer part for 0 and trims the fraction's trailing zeros (assumed by R-INTSTRING-SHIFT); base64 variant acceptance; enum name/number lookup.",
 		Quick:      all("./encoding/protojson"),
 		Thorough:   all("./..."),
 		Run: func(c *Ctx) {
 			c.ruleScanner("R-SCAN-NUMBER-PARTS", scannerSpec{key: "internal/encoding/json.parseNumberParts", regex: jsonNumberRx, what: "JSON number (RFC 8259 §6)", usePrefix: true})
+			c.ruleIntStringShift("R-INTSTRING-SHIFT")
+			c.ruleQuotedNumber("R-QUOTED-NUMBER")
 			c.ruleFloatBits("R-FLOATBITS", inPkgs("internal/encoding/json", "encoding/protojson"), 1)
 			c.ruleKindContext("R-KIND-CONTEXT", []string{"encoding/protojson", "internal/encoding/json"}, 10)
 		},
@@ -39,14 +41,16 @@ func init() {
 	register(&Property{
 		ID:         "C23",
 		Level:      "other",
-		Technique:  "scanner-to-automaton abstract interpretation + language equivalence with the documented Duration grammar; CFG dominance of range comparisons; dispatch-table agreement (static)",
-		Explain:    "Decides structural necessary conditions of the well-known-type JSON forms: (1) parseDuration accepts exactly the documented Duration grammar (optional sign, integer and/or fractional part with at most nine digits, suffix s; at least one digit) — automaton extracted from the source and compared both ways with the grammar, no out-of-range index; (2) Duration and Timestamp seconds/nanos are compared with both documented bounds before any JSON is written and before any parsed value is stored; (3) the encoder and decoder dispatch tables for well-known types cover the same message names and pair marshalX with unmarshalX.",
-		NotCovered: "the Timestamp grammar (delegated to time.Parse, see DESIGN.md §5 N1), Duration sign consistency and int64 arithmetic on values, FieldMask camel/snake reversibility, Struct/Value/ListValue/Any conversions.",
+		Technique:  "scanner-to-automaton abstract interpretation + language equivalence with the documented Duration grammar; CFG dominance of range comparisons and of the FieldMask reversibility test; interval arithmetic on integer products; dispatch-table agreement (static)",
+		Explain:    "Decides structural necessary conditions of the well-known-type JSON forms: (1) parseDuration accepts exactly the documented Duration grammar (optional sign, integer and/or fractional part with at most nine digits, suffix s; at least one digit) — automaton extracted from the source and compared both ways with the grammar, no out-of-range index; (2) Duration and Timestamp seconds/nanos are compared with both documented bounds before any JSON is written and before any parsed value is stored; (3) the encoder and decoder dispatch tables for well-known types cover the same message names and pair marshalX with unmarshalX; (4) no product of 64-bit integers in the Duration/Timestamp conversions can exceed int64 for in-range field values (interval arithmetic over the documented ranges); (5) the FieldMask writer emits a converted path only where it has established that the reader's conversion maps it back to the stored path.",
+		NotCovered: "the Timestamp grammar (delegated to time.Parse, see DESIGN.md §5 N1), the Duration sign test itself and the digit formatting on values, Struct/Value/ListValue/Any conversions.",
 		Quick:      all("./encoding/protojson"),
 		Thorough:   all("./..."),
 		Run: func(c *Ctx) {
 			c.ruleScanner("R-SCAN-DURATION", scannerSpec{key: "encoding/protojson.parseDuration", regex: jsonDurationRx, what: "Duration JSON string"})
 			c.ruleWKTRange("R-WKT-RANGE")
+			c.ruleWKTNoOverflow("R-WKT-NO-OVERFLOW")
+			c.ruleFieldMaskReversible("R-FIELDMASK-REVERSIBLE")
 			c.ruleWKTTable("R-WKT-TABLE")
 		},
 	})
